@@ -6,6 +6,7 @@ import os, re, subprocess, tempfile, shutil
 ROOT = os.path.dirname(os.path.dirname(os.path.abspath(__file__)))
 # (property, unit regex, clause regex) -> scenarios to try, in order
 TABLE = [
+    ("C19", r"radau|bdf", r"scale\.|restart\.", ["modified_solution_doubling"]),
     ("C09", r"solout", r"exact_zero", ["event_function_scale"]),
     ("C08", r"solout", r"exact_zero", ["event_function_scale"]),
     ("C05", r"solout", r"teval\.", ["tiny_time_scale", "teval_terminal"]),
@@ -24,7 +25,7 @@ TABLE = [
     ("C19", r"radau", r"interpolant_interval|dense\.", ["radau_interpolant_interval"]),
     ("C06", r".*", r"dense\.|interp\.", ["event_interpolant_right_end"]),
     ("C18", r".*", r"nfev|naccpt|nstep|njev", ["counters"]),
-    ("C19", r".*", r"fsal|proto\.|naccpt", ["counters", "protocol"]),
+    ("C19", r".*", r"fsal|proto\.|naccpt", ["counters", "modified_solution_doubling"]),
     ("C02", r".*", r"fsal", ["counters"]),
     ("C04", r".*", r"term\.|safety", ["termination"]),
     ("C17", r"matrix_sub|matrix_add", r".*", ["matrix_arith_dense_model"]),
